@@ -1,3 +1,5 @@
 import PPModel.Base.Sexp
 import PPModel.Mod.LineCol
 import PPModel.Driver.LineCol
+import PPModel.Base.Regex
+import PPModel.Driver.Regex
